@@ -118,6 +118,12 @@ func (v *Version) String() string {
 	return v.original
 }
 
+// IsPrerelease reports whether the version is a pre-release in the sense of PEP 440:
+// it has a pre-release segment (a, b, rc and their spellings) or a development segment
+func (v *Version) IsPrerelease() bool {
+	return v.prerelease != "" || v.dev != -1
+}
+
 // Compare compares this version with another PyPI version according to PEP 440
 // The order within one release is: .devN of the bare release < aN < bN < rcN < final <
 // .postN; a .devN of any phase sorts immediately before that phase.
